@@ -8,8 +8,8 @@
   driver evaluates the model at, and over `ℝ`).  `s` is the spectrum in descending order (`Desc s`,
   what `eigh` returns read from the back) and has at least one positive eigenvalue
   (`0 < countPos s`): without one the property itself is contradictory ("min(r, #positive) = 0
-  directions" versus "at least one is kept"); there the model mirrors the code (IndexError for a
-  fraction, everything returned for an integer) and no theorem is claimed.
+  directions" versus "at least one is kept"); there code and model refuse (`ValueError`, theorem
+  `no_positive_refused`).
 
   `posTotal s` — the sum of the positive eigenvalues — is the "total" of the property (it is what
   the code normalises by); `total_eq_sum_of_nonneg` identifies it with the trace for PSD input.
@@ -31,7 +31,7 @@ theorem int_rank (s : List K) (hpos : 0 < countPos s) (r : Int) (hr : 1 ≤ r) :
     selectRank s (.int r) = some (min r.toNat (countPos s)) := by
   have hle := countPos_le_length s
   unfold selectRank
-  have h0 : ¬ (countPos s = 0 ∧ r < 0) := by omega
+  have h0 : ¬ (countPos s = 0) := by omega
   simp only [h0, if_false]
   congr 1
   unfold sliceLast
@@ -170,6 +170,17 @@ example : selectRank ([5, 3, 1, 1/2, 1/2] : List ℚ) (.frac (99/100)) = some 5 
 example : selectRank ([5, 3, 0, -1] : List ℚ) (.int 3) = some 2 := by
   norm_num [selectRank, countPos, sliceLast]
   rfl
+
+/-- A spectrum without a positive eigenvalue is refused whatever the request (the `ValueError` of
+    `_eigendecomposition`): nothing is returned, in particular no non-positive "direction". -/
+theorem no_positive_refused (s : List K) (h : countPos s = 0) (req : RankReq K) :
+    selectRank s req = none := by
+  cases req with
+  | int r => simp [selectRank, h]
+  | frac f => simp [selectRank, h, cumsum, cumsumFrom]
+
+example : selectRank ([0, 0, -1] : List ℚ) (.int 2) = none ∧ selectRank ([0, 0, -1] : List ℚ) (.frac (1/2)) = none := by
+  constructor <;> norm_num [selectRank, countPos, cumsum, cumsumFrom]
 
 /-! ### at least one, never more than the positive ones, the largest ones -/
 
